@@ -317,7 +317,75 @@ def rule_index_arrays(ctx):
     ctx.covered('R06.7', 'archive index: every per-snapshot array has a field-independent write of entry i before the snapshot is accepted', n, floor=2, samples=samples)
 
 
+def rule_index_growth(ctx, rule='R06.8'):
+    """R06.8: loops that fill an array whose capacity is their own bound (`for (i = 0; i < cap; i++)`) and enlarge it inside
+    the body must enlarge it in the last iteration the bound admits, i.e. the growth test has to hold for i = cap - 1
+    (with the assignments that precede it in the body taken into account). Otherwise the loop ends by exhausting the
+    capacity while there is more to read: an archive with more snapshots than the initial capacity is silently cut."""
+    from . import symexec
+    import sympy as sp
+    n = 0
+    samples = []
+    for cfile in ('simulationarchive.c', 'input.c', 'output.c'):
+        tu = cfront.load_tu(cfile)
+        for fname in sorted(tu.funcs):
+            fn = tu.func(fname)
+            if cfront.body(fn) is None:
+                continue
+            for loop in walk(cfront.body(fn)):
+                if loop.get('kind') != 'ForStmt' or not loop['inner'][2]:
+                    continue
+                c = strip(loop['inner'][2])
+                if not (c.get('kind') == 'BinaryOperator' and c.get('opcode') == '<'):
+                    continue
+                iv, cap = strip(c['inner'][0], casts=True), strip(c['inner'][1], casts=True)
+                if iv.get('kind') != 'DeclRefExpr' or cap.get('kind') != 'DeclRefExpr':
+                    continue
+                capn, ivn = cap['referencedDecl']['name'], iv['referencedDecl']['name']
+                body = loop['inner'][-1]
+                items = body.get('inner', []) if body.get('kind') == 'CompoundStmt' else [body]
+                grow = None
+                for k_, st in enumerate(items):
+                    if st.get('kind') == 'IfStmt' and any(is_assign(e) and render(e['inner'][0]) == capn for e in walk(st['inner'][1])) \
+                            and any(e.get('kind') == 'CallExpr' and callee_name(e) == 'realloc' for e in walk(st['inner'][1])):
+                        grow = (k_, st)
+                if grow is None:
+                    continue
+                n += 1
+                k_, st = grow
+                state = symexec.State()
+                CAP = state.sym(capn)
+                state.vals[ivn] = CAP - 1
+                for prev in items[:k_]:
+                    e = strip(prev)
+                    if is_assign(e) and e['opcode'] == '=':
+                        try:
+                            state.assign(e['inner'][0], '=', e['inner'][1])
+                        except (ValueError, KeyError):
+                            pass
+                g = strip(st['inner'][0])
+                where = 'src/%s:%s %s' % (cfile, line_of(st), fname)
+                verdict = None
+                if g.get('kind') == 'BinaryOperator' and g.get('opcode') in ('==', '>=', '>', '<', '<=', '!='):
+                    try:
+                        a, b = state.ev(g['inner'][0]), state.ev(g['inner'][1])
+                        d = sp.simplify(a - b)
+                        if d.is_number:
+                            verdict = {'==': d == 0, '>=': d >= 0, '>': d > 0, '<': d < 0, '<=': d <= 0, '!=': d != 0}[g['opcode']]
+                    except (ValueError, KeyError):
+                        verdict = None
+                if verdict is None:
+                    raise AnalysisError('%s: growth test %s of the loop over %s < %s at %s is not a comparison that can be decided for %s = %s - 1' % (rule, render(g), ivn, capn, where, ivn, capn))
+                if not verdict:
+                    ctx.report(rule, '%s:growth:%s' % (fname, capn), where,
+                               'the loop runs while %s < %s and enlarges %s only if %s, which is false in the last admitted iteration (%s = %s - 1): the loop ends when the initial capacity is used up and everything beyond it is silently dropped'
+                               % (ivn, capn, capn, render(g), ivn, capn))
+                samples.append('%s: growth test %s holds for %s = %s - 1' % (where, render(g), ivn, capn))
+    ctx.covered(rule, 'loops bounded by a capacity they enlarge themselves: the growth test holds in the last admitted iteration', n, floor=1, samples=samples)
+
+
 def run(ctx):
+    rule_index_growth(ctx)
     rule_index_arrays(ctx)
     bytesacct.rule_writer(ctx, 'R06.1', [('binarydiff.c', 'reb_binary_diff'), ('simulationarchive.c', 'reb_simulation_save_to_file')], floor=4)
     rule_append_protocol(ctx)
